@@ -6,7 +6,7 @@ OUTSIDE = ['every inverse pair except the temperature scales: trigonometric / hy
 ASSUMPTIONS = ['the real module physics::temperature_conversion (with units::si) is imported into a real session; x is a symbolic double with |x| <= 10^6; tolerance 1e-9 (Celsius: two additions with rounding error <= 2.4e-10) / 1e-8 (Fahrenheit)']
 
 def bounds(tier):
-    return {'scales': 'Celsius' + (' and Fahrenheit' if tier == 'thorough' else ' (Fahrenheit in the thorough tier)'), 'symbolic_inputs': 'x: all doubles with |x| <= 10^6'}
+    return {'scales': 'Celsius' + (' and Fahrenheit' if tier == 'thorough' else ' (Fahrenheit in the thorough tier)'), 'symbolic_inputs': 'x: all doubles with |x| <= 10^6', 'units': 'absolute temperatures written in kelvin and in millikelvin (thorough: also kilokelvin, microkelvin)'}
 
 def exhaustive(tier): return False
 
@@ -19,6 +19,9 @@ def _inputs(rnd, case):
 def plan(tier, rnd, units):
     scales = ['celsius'] + (['fahrenheit'] if tier == 'thorough' else [])
     cases = [{'id': sc, 'label': '%s <-> kelvin' % sc, 'cfg': {0: PRE, 1: sc}} for sc in scales]
+    for sc in scales:
+        for u in ['millikelvin'] + (['kilokelvin', 'microkelvin'] if tier == 'thorough' else []):
+            cases.append({'id': '%s-%s' % (sc, u), 'label': '%s -> %s -> kelvin for temperatures written in %s' % (u, sc, u), 'cfg': {0: PRE, 1: sc, 2: u}})
     to = 120000 if tier == 'quick' else 300000
     return [{'entry': 'h_c23_temperature', 'cases': cases, 'opts': {'mode': 'fork', 'per_case_setup': True, 'max_paths': 100, 'instr_budget': 2_000_000_000, 'query_timeout_ms': to},
              'expect_covers': ['c23-round-trip-evaluated'], 'selftest_inputs': _inputs, 'selftest_runs': 1}]
